@@ -7,10 +7,8 @@ use serde_json::Value as J;
 pub fn run(r: &Report) -> i32 {
     let thorough = r.tier.thorough();
     let mut progs = c01::generated_programs(r);
-    if !thorough {
-        // quick: depth-1 programs and the curated families; the planner-relevant depth-2 set is in the thorough tier
-        progs.retain(|p| p.outs.is_none());
-    }
+    let _ = thorough;
+    // quick: depth 1 + planner-relevant depth 2 (reduced owner / output sets) + curated families
     progs.extend(super::curated::programs(thorough));
     r.extra("program_classes", c01::class_histogram(&progs));
     let b = Budget {
@@ -23,7 +21,7 @@ pub fn run(r: &Report) -> i32 {
     c01::run_engine(r, Which::ThreeParty, progs, &b);
     r.finish(
         "model_checking",
-        "three-party execution of the real compiled graph: every node evaluated by each party's own SimpleEvaluator on that party's values; non-owned inputs and non-held share slots filled from the junk alphabet {zeros, ones, seed-derived bytes}; values cross parties only at Send-annotated nodes; failures are poison. Space: C01 program space (depth 1 + curated; thorough adds planner-relevant depth 2) x owner vectors x 8 output subsets x inline modes x inputs x junk alphabet x 2 assignments of the three parties' seeds (+ PRF-all-zero tape). states = three-party executions, transitions = party steps (node evaluations by one party). Oracle: every output party holds exactly the plaintext result; for a shared output party i holds shares i and i+1, neighbours agree, own shares reconstruct. distinct = distinct compiled contexts",
+        "three-party execution of the real compiled graph: every node evaluated by each party's own SimpleEvaluator on that party's values; non-owned inputs and non-held share slots filled from the junk alphabet {zeros, ones, seed-derived bytes}; values cross parties only at Send-annotated nodes; failures are poison. Space: C01 program space (depth 1, planner-relevant depth 2, curated) x owner vectors x 8 output subsets x inline modes x inputs x junk alphabet x 2 assignments of the three parties' seeds (+ PRF-all-zero tape). states = three-party executions, transitions = party steps (node evaluations by one party). Oracle: every output party holds exactly the plaintext result; for a shared output party i holds shares i and i+1, neighbours agree, own shares reconstruct. distinct = distinct compiled contexts",
         true,
         &[
             "execution model = runtime's documented rules (reference/runtime.md): all parties evaluate all nodes, junk for data they do not own, Send(s,r) copies s's value to r",
